@@ -50,6 +50,10 @@ type plan struct {
 	gcAt      int
 	faultEv   int // the event number faultEv gets the fault list `faults`
 	faults    []fault
+	// a client that retries: when the request that met the planned fault ends with a 500, the very
+	// same request (range, ticket, body) is sent again `retries` times with the fault cleared
+	retries      int
+	restartAfter bool // ... and, if the last retry ends with 200, a restart + the resume monitor follow
 }
 
 func noPlan() plan { return plan{restartAt: -1, gcAt: -1, faultEv: -1} }
@@ -87,7 +91,9 @@ type hist struct {
 	nextSid     int
 	resumeDue   bool
 
-	plan    plan
+	plan       plan
+	faultedNow bool // the event being run got the planned fault list
+	inRetry    bool
 	evCount int   // scripted events so far
 	opsPer  []int // operations consumed by each scripted event (dry runs)
 }
@@ -218,10 +224,37 @@ func (h *hist) tick(fs []fault) []fault {
 	if h.plan.gcAt == n {
 		h.evGC()
 	}
+	h.faultedNow = false
 	if h.plan.faultEv == n {
+		h.faultedNow = true
 		return h.plan.faults
 	}
 	return fs
+}
+
+// maybeRetry: the retrying client of plan.retries (see plan)
+func (h *hist) maybeRetry(s *session, res result) {
+	if h.faultedNow {
+		s.faulted = true
+		h.faultedNow = false
+	}
+	if h.plan.retries == 0 || h.inRetry || !s.faulted || res.gate || res.code != 500 {
+		return
+	}
+	h.inRetry = true
+	defer func() { h.inRetry = false }()
+	for i := 0; i < h.plan.retries; i++ {
+		q := s.req
+		q.faults = nil
+		h.stats["retry|request"]++
+		s2, r := h.evBegin(q)
+		last := h.runToEnd(s2, r)
+		h.stats[fmt.Sprintf("retry|answer-%d", last.code)]++
+		if last.code == 200 && h.plan.restartAfter && i == h.plan.retries-1 {
+			h.evRestart()
+			h.resume()
+		}
+	}
 }
 
 func (h *hist) endEvent() {
@@ -340,7 +373,7 @@ func (h *hist) evBegin(q beginReq) (*session, result) {
 	case "ctype":
 		ctype = []string{"", "text/plain", "application/octet-stream; charset=utf-8"}[h.r.Intn(3)]
 	}
-	s := &session{sid: h.nextSid, resume: make(chan struct{}), start: q.start, end: q.end}
+	s := &session{sid: h.nextSid, resume: make(chan struct{}), start: q.start, end: q.end, req: q}
 	h.nextSid++
 	h.sessions = append(h.sessions, s)
 	h.logf("ev|begin|%d|%s|%s|%d|%d|%s|%s|%s", s.sid, q.hdr, q.origin, q.start, q.end, q.ticket,
@@ -360,7 +393,9 @@ func (h *hist) evBegin(q beginReq) (*session, result) {
 	h.sim.beginEvent(q.faults)
 	runSession(s, func() { handler.ServeHTTP(s.rec, req) })
 	h.endEvent()
-	return s, h.answer(s, "begin")
+	res := h.answer(s, "begin")
+	h.maybeRetry(s, res)
+	return s, res
 }
 
 func (h *hist) evPkg(s *session, fs []fault) (result, bool) {
@@ -388,6 +423,7 @@ func (h *hist) evPkg(s *session, fs []fault) (result, bool) {
 		}
 		h.mon.line(h.sim, "authwrite", problems)
 	}
+	h.maybeRetry(s, res)
 	return res, true
 }
 
@@ -405,7 +441,9 @@ func (h *hist) evCommit(s *session, fs []fault) (result, bool) {
 	h.sim.beginEvent(fs)
 	runSession(s, nil)
 	h.endEvent()
-	return h.answer(s, "commit"), true
+	res := h.answer(s, "commit")
+	h.maybeRetry(s, res)
+	return res, true
 }
 
 func (h *hist) evRestart() {
@@ -571,6 +609,16 @@ func (h *hist) finish() {
 
 // ---- main -----------------------------------------------------------------------------------
 
+// -scenario accepts a comma separated list of names
+func inList(list, name string) bool {
+	for _, x := range strings.Split(list, ",") {
+		if x == name {
+			return true
+		}
+	}
+	return false
+}
+
 func main() {
 	seed := flag.Int64("seed", 1, "seed of all randomness")
 	if v := os.Getenv("VERIF_SEED"); v != "" {
@@ -583,7 +631,14 @@ func main() {
 	outPath := flag.String("out", "", "history file (default stdout)")
 	big := flag.Bool("big", true, "include the big scenario (log of about 66,500 entries)")
 	prof := flag.String("cpuprofile", "", "write a CPU profile to this file")
+	part := flag.String("part", "", "i/n: of every enumeration run only the histories k with k % n == i")
 	flag.Parse()
+	if *part != "" {
+		if _, err := fmt.Sscanf(*part, "%d/%d", &partI, &partN); err != nil || partN < 1 || partI < 0 || partI >= partN {
+			fmt.Fprintln(os.Stderr, "bad -part")
+			os.Exit(2)
+		}
+	}
 	if *prof != "" {
 		f, err := os.Create(*prof)
 		must(err)
@@ -610,10 +665,10 @@ func main() {
 		bw.Write(h.out.Bytes())
 	}
 	for _, sc := range scenarios {
-		if *scen != "" && *scen != sc.name {
+		if *scen != "" && !inList(*scen, sc.name) {
 			continue
 		}
-		if sc.name == "big" && !*big && *scen != "big" {
+		if sc.name == "big" && !*big && !inList(*scen, "big") {
 			continue
 		}
 		sc.run(&runner{seed: *seed, name: sc.name, stats: stats, emit: emit})
